@@ -180,6 +180,46 @@ func (w *c15World) line(c *Ctx, in string) {
 	case "agentread": // agentread <data>: SOCKET_COMMAND_READ from the agent for this socket
 		w.dispatch(agent.COMMAND_SOCKET, body(fI(agent.SOCKET_COMMAND_READ), fI(uint32(w.sock)), fI(agent.SOCKET_TYPE_REVERSE_PROXY), fI(1), fY(unhx(parts[1]))))
 		c.Emit("%s => recv=%s", in, hx(w.recvFor(ms(30))))
+	case "slowread": // slowread <MiB> <pause ms>: the agent returns a large amount at once and then some more; the client is not reading
+		// for a while and then reads everything: all of it, in order (a relay has no say in how fast a client reads)
+		mib, _ := strconv.Atoi(parts[1])
+		pause, _ := strconv.Atoi(parts[2])
+		big := make([]byte, mib<<20)
+		for i := range big {
+			big[i] = byte(i*7 + i>>11)
+		}
+		tail := []byte("<<tail-after-the-big-chunk>>")
+		done := make(chan struct{})
+		go func() {
+			defer close(done)
+			defer func() { recover() }()
+			w.dispatch(agent.COMMAND_SOCKET, body(fI(agent.SOCKET_COMMAND_READ), fI(uint32(w.sock)), fI(agent.SOCKET_TYPE_REVERSE_PROXY), fI(1), fY(big)))
+			w.dispatch(agent.COMMAND_SOCKET, body(fI(agent.SOCKET_COMMAND_READ), fI(uint32(w.sock)), fI(agent.SOCKET_TYPE_REVERSE_PROXY), fI(1), fY(tail)))
+		}()
+		time.Sleep(time.Duration(pause) * time.Millisecond)
+		want := append(append([]byte{}, big...), tail...)
+		got := make([]byte, 0, len(want))
+		buf := make([]byte, 1<<20)
+		for len(got) < len(want) {
+			w.conn.SetReadDeadline(time.Now().Add(3 * time.Second))
+			n, err := w.conn.Read(buf)
+			got = append(got, buf[:n]...)
+			if err != nil {
+				break
+			}
+		}
+		select {
+		case <-done:
+		case <-time.After(5 * time.Second):
+		}
+		firstDiff := -1
+		for i := 0; i < len(got) && i < len(want); i++ {
+			if got[i] != want[i] {
+				firstDiff = i
+				break
+			}
+		}
+		c.Emit("%s => sent=%d got=%d firstdiff=%d", in, len(want), len(got), firstDiff)
 	case "agentclose":
 		w.dispatch(agent.COMMAND_SOCKET, body(fI(agent.SOCKET_COMMAND_CLOSE), fI(uint32(w.sock)), fI(agent.SOCKET_TYPE_REVERSE_PROXY)))
 		w.conn.SetReadDeadline(time.Now().Add(ms(40)))
@@ -269,6 +309,10 @@ func runC15(c *Ctx) {
 		return
 	}
 	r := c.R
+	slowLeft := 1
+	if c.Tier == "thorough" {
+		slowLeft = 3
+	}
 	for c.Lines < c.N {
 		if r.Chance(1, 5) { // reverse port forwards: targets that are up, down, or come up later; data both ways; removal
 			w.line(c, "pfreset")
@@ -405,6 +449,11 @@ func runC15(c *Ctx) {
 					c.Count("agentread")
 					w.line(c, "agentread "+hx(r.Bytes(1+r.Intn(60))))
 				}
+			}
+			if slowLeft > 0 && r.Chance(1, 6) { // a client that does not read for longer than any write timeout one might pick
+				slowLeft--
+				c.Count("slowread")
+				w.line(c, "slowread 24 6500")
 			}
 			if r.Bool() {
 				w.line(c, "agentclose")
